@@ -56,6 +56,7 @@ class FactBase:
         self.aliases = {}
         self.crates = {}
         self._canon = None
+        self.dups = {}
         for fn in sorted(os.listdir(directory)):
             if not fn.endswith(".json"):
                 continue
@@ -66,8 +67,16 @@ class FactBase:
                                     "n_items": len(d["items"])}
             for it in d["items"]:
                 item = Item(it, crate, cfg)
-                # the same path may exist in lib and bin facts of a package; keep first
-                self.items.setdefault(item.path, item)
+                # the same path may exist in lib and bin facts of a package; keep first.  Two different items can also
+                # print the same path (impls of two traits re-exported under one name): keep both, the later one
+                # under path@file:line
+                prev = self.items.get(item.path)
+                if prev is None:
+                    self.items[item.path] = item
+                elif (prev.file, prev.line) != (item.file, item.line) and prev.crate == item.crate:
+                    alt = "%s@%s:%s" % (item.path, item.file, item.line)
+                    self.items.setdefault(alt, item)
+                    self.dups.setdefault(item.path, [prev]).append(item)
             for a in d["adts"]:
                 self.adts.setdefault(a["path"], a)
             for a in d["aliases"]:
